@@ -226,6 +226,7 @@ impl pocket_db::verif::Hooks for ConcHooks {
 enum Outcome {
     Store(StoreOutcome),
     Removed(Result<(), String>),
+    Vanished(Result<(), String>),
     Has(Result<bool, String>),
     Get(Result<Option<String>, String>),
     Query(QueryOutcomeC),
@@ -266,6 +267,14 @@ fn exec_op(store: &Store, op: &Op, enc: &BTreeMap<B32, OwnedEvent>) -> Outcome {
             Ok(Err(e)) => Err(real::err_name(&e.inner)),
             Err(p) => Err(format!("PANIC:{p}")),
         }),
+        Op::Vanish(pk) => {
+            let ev = real::vanish_event(pk);
+            Outcome::Vanished(match real::catch(|| store.vanish(&ev)) {
+                Ok(Ok(())) => Ok(()),
+                Ok(Err(e)) => Err(real::err_name(&e.inner)),
+                Err(p) => Err(format!("PANIC:{p}")),
+            })
+        }
         Op::Has(id) => Outcome::Has(match real::catch(|| store.has_event(pocket_types::Id::from_bytes(*id))) {
             Ok(Ok(b)) => Ok(b),
             Ok(Err(e)) => Err(real::err_name(&e.inner)),
@@ -303,6 +312,7 @@ fn outcome_label(o: &Outcome) -> String {
     match o {
         Outcome::Store(s) => s.label(),
         Outcome::Removed(r) => format!("{:?}", r),
+        Outcome::Vanished(r) => format!("{:?}", r),
         Outcome::Has(r) => format!("{:?}", r),
         Outcome::Get(r) => format!("{:?}", r),
         Outcome::Stats(r) => format!("{:?}", r),
@@ -338,6 +348,12 @@ fn model_step(m: &mut Model, op: &Op, out: &Outcome, enc: &BTreeMap<B32, OwnedEv
         }
         (Op::Remove(id), Outcome::Removed(Ok(()))) => {
             let _ = m.apply_remove(id);
+            true
+        }
+        // vanish is generated only against stores of the vanishing key's own events (its targets
+        // then come from one snapshot, so that it has one linearization point)
+        (Op::Vanish(pk), Outcome::Vanished(Ok(()))) => {
+            let _ = m.apply_vanish(pk);
             true
         }
         (Op::Has(id), Outcome::Has(Ok(b))) => m.retrievable.contains(id) == *b,
@@ -466,13 +482,14 @@ pub fn generate(rs: u64, focus: &str) -> Trace {
     let nthreads = if crate::gen::thorough() { 2 + g.rng.weighted(&[35, 35, 30]) } else { 2 + g.rng.weighted(&[55, 30, 15]) };
     let mut threads: Vec<Vec<Op>> = vec![vec![]; nthreads];
     let scenario = match focus {
-        "C04" => g.rng.weighted(&[5, 5, 0, 10, 0, 10, 70, 0, 0]),
-        "C15" => g.rng.weighted(&[5, 5, 5, 10, 0, 30, 35, 10, 0]),
-        "C18" => g.rng.weighted(&[0, 0, 0, 0, 35, 15, 0, 0, 50]),
-        "C09" => g.rng.weighted(&[5, 75, 0, 5, 0, 15, 0, 0, 0]),
-        "C10" => g.rng.weighted(&[0, 0, 10, 0, 0, 20, 0, 70, 0]),
-        "C11" => g.rng.weighted(&[0, 5, 60, 0, 0, 20, 0, 15, 0]),
-        _ => g.rng.weighted(&[15, 15, 11, 15, 8, 13, 8, 8, 7]),
+        "C04" => g.rng.weighted(&[5, 5, 0, 10, 0, 10, 70, 0, 0, 0, 0]),
+        "C15" => g.rng.weighted(&[5, 5, 5, 10, 0, 30, 35, 10, 0, 0, 0]),
+        "C18" => g.rng.weighted(&[0, 0, 0, 0, 25, 10, 0, 0, 35, 0, 30]),
+        "C09" => g.rng.weighted(&[5, 75, 0, 5, 0, 15, 0, 0, 0, 0, 0]),
+        "C10" => g.rng.weighted(&[0, 0, 10, 0, 0, 20, 0, 70, 0, 0, 0]),
+        "C11" => g.rng.weighted(&[0, 5, 60, 0, 0, 20, 0, 15, 0, 0, 0]),
+        "C17" => g.rng.weighted(&[0, 10, 0, 0, 10, 15, 0, 0, 10, 45, 10]),
+        _ => g.rng.weighted(&[14, 14, 10, 14, 8, 12, 8, 7, 6, 4, 3]),
     };
     let known: Vec<EvSpec> = g.model.events.values().cloned().collect();
     let retr: Vec<B32> = g.model.retrievable.iter().copied().collect();
@@ -517,13 +534,32 @@ pub fn generate(rs: u64, focus: &str) -> Trace {
             }
             if g.rng.chance(2, 3) {
                 let t = g.rng.usize(nthreads);
-                let q = QuerySpec { authors: vec![a.pk], kinds: vec![a.kind], ..QuerySpec::all_allowed() };
+                let q = match g.rng.below(3) {
+                    // one range
+                    0 => QuerySpec { authors: vec![a.pk], kinds: vec![a.kind], ..QuerySpec::all_allowed() },
+                    // several ranges, each of which finds the holder of the moment: one snapshot
+                    // must serve them all
+                    1 => QuerySpec { authors: vec![a.pk, g.rng.bytes32()], kinds: vec![a.kind, 1, 7], ..QuerySpec::all_allowed() },
+                    _ => {
+                        let mut authors = g.authors.clone();
+                        if !authors.contains(&a.pk) {
+                            authors.push(a.pk);
+                        }
+                        QuerySpec { authors, ..QuerySpec::all_allowed() }
+                    }
+                };
                 threads[t].push(Op::Query(q));
             }
         }
         2 => {
-            // a deletion request racing the store of its target
-            let target = g.new_event();
+            // a deletion request racing the store of its target (which now and then does not fit
+            // into the map any more, so that the store has to grow it on the way)
+            let mut target = g.new_event();
+            if g.rng.chance(1, 2) {
+                let len = *g.rng.pick(&[700usize, 1500, 2100, 3900]) + g.rng.usize(64);
+                let seed = g.rng.next();
+                target.content = (0..len).map(|i| (seed.wrapping_mul(i as u64 + 5) >> 9) as u8).collect();
+            }
             let del = EvSpec {
                 id: g.rng.bytes32(),
                 pk: target.pk,
@@ -647,6 +683,46 @@ pub fn generate(rs: u64, focus: &str) -> Trace {
             }
             if g.rng.chance(1, 2) {
                 threads[0].push(Op::Get(target.id));
+            }
+        }
+        9 => {
+            // the statistics polled while others store and remove: every report is one state
+            for t in 0..nthreads - 1 {
+                let n = 1 + g.rng.usize(3);
+                for _ in 0..n {
+                    if !retr.is_empty() && g.rng.chance(1, 3) {
+                        threads[t].push(Op::Remove(*g.rng.pick(&retr)));
+                    } else if g.rng.chance(1, 4) {
+                        threads[t].push(Op::Store(g.new_version()));
+                    } else {
+                        threads[t].push(Op::Store(g.new_event()));
+                    }
+                }
+            }
+            for _ in 0..(1 + g.rng.usize(3)) {
+                threads[nthreads - 1].push(Op::Stats);
+            }
+        }
+        10 => {
+            // a key vanishes while the same key keeps publishing (plain events only: the
+            // gift-wrap pass of vanish reads a second snapshot)
+            let pk = known.iter().map(|e| e.pk).next().unwrap_or(g.authors[0]);
+            threads[0].push(Op::Vanish(pk));
+            for t in 1..nthreads {
+                let n = 1 + g.rng.usize(2);
+                for _ in 0..n {
+                    let mut e = g.new_event();
+                    e.pk = pk;
+                    // plain regular events: their stores succeed whatever part of the vanish has
+                    // happened (vanish removes its targets one transaction at a time, so an
+                    // operation whose answer depends on a target would see it half done)
+                    e.kind = 1;
+                    e.tags.retain(|t| t.first().map(|x| x != "p" && x != "P").unwrap_or(true));
+                    threads[t].push(Op::Store(e));
+                }
+            }
+            if g.rng.chance(1, 2) {
+                threads[0].push(Op::Vanish(pk));
             }
         }
         8 => {
@@ -1191,7 +1267,10 @@ pub fn run_conc_full(trace: &Trace, scratch: PathBuf, verbose: bool, known_open:
             }
             // which other statements does the final state contradict (true under ANY order)?
             let mut props: Vec<&'static str> = vec!["C14"];
-            for (p, why) in state_invariants(&store, &model, &sorted, &enc) {
+            let mut inv = state_invariants(&store, &model, &sorted, &enc);
+            inv.extend(answer_invariants(&model, &sorted));
+            inv.extend(path_agreement(&store, &model, &sorted));
+            for (p, why) in inv {
                 if !props.contains(&p) {
                     props.push(p);
                     detail.push_str(&format!("; {p}: {why}"));
@@ -1200,11 +1279,27 @@ pub fn run_conc_full(trace: &Trace, scratch: PathBuf, verbose: bool, known_open:
             finding = Some(Finding { clause: "not-linearizable".into(), props, detail, op_index: 0 });
         }
     }
+    // the results may be explained and the lookups by id agree, yet at the end (nothing runs any
+    // more) an event is reachable through one index and not through another
+    if finding.is_none() {
+        let pa = path_agreement(&store, &model, &sorted);
+        if !pa.is_empty() {
+            let mut props: Vec<&'static str> = vec!["C14"];
+            let mut detail = String::from("after the concurrent phase the access paths disagree");
+            for (p, why) in pa {
+                if !props.contains(&p) {
+                    props.push(p);
+                }
+                detail.push_str(&format!("; {p}: {why}"));
+            }
+            finding = Some(Finding { clause: "access-paths-disagree".into(), props, detail, op_index: 0 });
+        }
+    }
     // every reader error is a violation by itself (an index entry whose bytes are unreadable, a panic)
     if finding.is_none() {
         for r in &sorted {
             let bad = match &r.out {
-                Outcome::Has(Err(e)) | Outcome::Get(Err(e)) | Outcome::Removed(Err(e)) | Outcome::Stats(Err(e)) | Outcome::Synced(Err(e)) => Some(e.clone()),
+                Outcome::Has(Err(e)) | Outcome::Get(Err(e)) | Outcome::Removed(Err(e)) | Outcome::Vanished(Err(e)) | Outcome::Stats(Err(e)) | Outcome::Synced(Err(e)) => Some(e.clone()),
                 Outcome::Query(QueryOutcomeC::OtherErr(e)) | Outcome::Query(QueryOutcomeC::Panic(e)) => Some(e.clone()),
                 Outcome::Store(StoreOutcome::Other(_)) if matches!(&r.op, Op::Store(e) if model.store_expect(e).engine_refusal) => None,
                 Outcome::Store(StoreOutcome::Panic(p)) | Outcome::Store(StoreOutcome::Other(p)) => Some(p.clone()),
@@ -1345,6 +1440,109 @@ fn state_invariants(store: &Store, base: &Model, recs: &[OpRecord], enc: &BTreeM
                     } else if accepted.values().any(|e| e.addr().as_ref() == Some(&a)) {
                         out.push(("C10", format!("request {} names the address {} of another author and was accepted", short(&d.id), a.label())));
                     }
+                }
+            }
+        }
+    }
+    out
+}
+
+/// What a single answer shows by itself, whatever the order of the operations was.
+fn answer_invariants(base: &Model, recs: &[OpRecord]) -> Vec<(&'static str, String)> {
+    let mut out: Vec<(&'static str, String)> = vec![];
+    let mut specs: BTreeMap<B32, EvSpec> = base.events.clone();
+    for r in recs {
+        if let Op::Store(e) = &r.op {
+            let _ = specs.insert(e.id, e.clone());
+        }
+    }
+    for r in recs {
+        match (&r.op, &r.out) {
+            (Op::Stats, Outcome::Stats(Ok(c))) => {
+                if c.iter().any(|x| *x != c[0]) {
+                    out.push(("C17", format!("one statistics report counts {} id, {} time, {} author and {} author-kind entries", c[0], c[1], c[2], c[3])));
+                }
+            }
+            (Op::Query(q), Outcome::Query(QueryOutcomeC::Ok(ids, _))) => {
+                let mut seen: BTreeSet<B32> = BTreeSet::new();
+                let mut addrs: BTreeSet<AddrKey> = BTreeSet::new();
+                let mut last_at: Option<u64> = None;
+                for id in ids {
+                    if !seen.insert(*id) {
+                        out.push(("C05", format!("one answer lists {} twice", short(id))));
+                    }
+                    if let Some(e) = specs.get(id) {
+                        if let Some(a) = e.addr() {
+                            if !addrs.insert(a.clone()) {
+                                out.push(("C09", format!("one answer holds two events of the address {}", a.label())));
+                            }
+                        }
+                        if is_ephemeral(e.kind) {
+                            out.push(("C18", format!("an answer holds the ephemeral event {}", short(id))));
+                        }
+                        if let Some(l) = last_at {
+                            if e.at > l {
+                                out.push(("C05", "an answer is not ordered newest first".to_string()));
+                            }
+                        }
+                        last_at = Some(e.at);
+                    }
+                }
+                if let Some(l) = q.limit {
+                    if ids.len() > l as usize {
+                        out.push(("C05", format!("an answer holds {} events under limit {}", ids.len(), l)));
+                    }
+                }
+            }
+            _ => {}
+        }
+    }
+    out
+}
+
+/// Nothing runs any more: every event that took part must be reachable through its id, its
+/// author and its author+kind alike, or through none of them.
+fn path_agreement(store: &Store, base: &Model, recs: &[OpRecord]) -> Vec<(&'static str, String)> {
+    let mut out: Vec<(&'static str, String)> = vec![];
+    let mut specs: BTreeMap<B32, EvSpec> = BTreeMap::new();
+    for id in &base.retrievable {
+        let _ = specs.insert(*id, base.events[id].clone());
+    }
+    for r in recs {
+        if let (Op::Store(e), Outcome::Store(StoreOutcome::Ok(_))) = (&r.op, &r.out) {
+            let _ = specs.insert(e.id, e.clone());
+        }
+    }
+    let vanished: BTreeSet<B32> = recs.iter().filter_map(|r| if let Op::Vanish(pk) = &r.op { Some(*pk) } else { None }).collect();
+    let mut by_author: BTreeMap<B32, BTreeSet<B32>> = BTreeMap::new();
+    let mut by_author_kind: BTreeMap<(B32, u16), BTreeSet<B32>> = BTreeMap::new();
+    for e in specs.values() {
+        if !by_author.contains_key(&e.pk) {
+            let q = QuerySpec { authors: vec![e.pk], ..QuerySpec::all_allowed() };
+            if let QueryOutcome::Ok(ids, _) = real::query(store, &q) {
+                let _ = by_author.insert(e.pk, ids.into_iter().collect());
+            }
+        }
+        if !by_author_kind.contains_key(&(e.pk, e.kind)) {
+            let q = QuerySpec { authors: vec![e.pk], kinds: vec![e.kind], ..QuerySpec::all_allowed() };
+            if let QueryOutcome::Ok(ids, _) = real::query(store, &q) {
+                let _ = by_author_kind.insert((e.pk, e.kind), ids.into_iter().collect());
+            }
+        }
+    }
+    for (id, e) in &specs {
+        let has = store.has_event(pocket_types::Id::from_bytes(*id)).unwrap_or(false);
+        let a = by_author.get(&e.pk).map(|s| s.contains(id));
+        let ak = by_author_kind.get(&(e.pk, e.kind)).map(|s| s.contains(id));
+        for (name, got) in [("author", a), ("author and kind", ak)] {
+            if let Some(g) = got {
+                if g != has {
+                    let why = format!("{} is {} by id but {} through its {}", short(id), if has { "retrievable" } else { "not retrievable" }, if g { "returned" } else { "not returned" }, name);
+                    out.push(("C17", why.clone()));
+                    if vanished.contains(&e.pk) {
+                        out.push(("C18", why));
+                    }
+                    return out;
                 }
             }
         }
